@@ -131,7 +131,7 @@ def run(ctx):
         elif r["status"] == "timeout":
             unexpected.append(r)
         for f in r["c01_fail"]:
-            ctx.violation("exposed-solution-inconsistent:%s" % cfg["alg"],
+            ctx.violation("%s:%s" % (f.get("key", "exposed-solution-inconsistent"), cfg["alg"]),
                           "%s (%s variables, evaluator %s, seed %d): step %d, %s: %s" % (cfg["alg"], cfg["kind"], cfg.get("evaluator"), cfg["seed"],
                                                                                    f["step"], f["where"], f["what"]),
                           {"kind": "run", "cfg": cfg, "step": f["step"], "where": f["where"]})
